@@ -4,8 +4,6 @@ mod props;
 
 use fw::*;
 
-#[global_allocator]
-static GLOBAL: jemallocator::Jemalloc = jemallocator::Jemalloc;
 
 use std::path::PathBuf;
 use std::time::Instant;
@@ -16,6 +14,12 @@ fn usage() -> ! {
 }
 
 fn main() {
+    // glibc malloc: keep large buffers on the heap (mmap/munmap churn from 16 worker
+    // threads costs far more than the checks themselves)
+    unsafe {
+        libc::mallopt(libc::M_MMAP_THRESHOLD, 1 << 30);
+        libc::mallopt(libc::M_TRIM_THRESHOLD, 1 << 30);
+    }
     let args: Vec<String> = std::env::args().collect();
     if args.len() < 2 {
         usage();
